@@ -26,14 +26,22 @@ def fs_effects(ctx, job):
             open(os.path.join(root, "mod.c"), "w").write("precious"); open(os.path.join(root, "mod.h"), "w").write("precious"); open(os.path.join(root, "datasegments"), "w").write("precious")
         for dname in decoys:
             open(os.path.join(od, dname), "w").write("decoy " + dname)
-        open(os.path.join(root, "in.wasm"), "wb").write(wasm_bytes)
+        if name == "gnuld":       # a module WITH data segments: the 'datasegments' blob is written next to the output file (and nowhere else)
+            from . import c06
+            wasm_bytes_s = c06.build_module(False, True).encode()
+            os.makedirs(os.path.join(od, "out"), exist_ok=True)          # a decoy directory with the output directory's own name inside it
+        else:
+            wasm_bytes_s = wasm_bytes
+        open(os.path.join(root, "in.wasm"), "wb").write(wasm_bytes_s)
         open(os.path.join(root, "other.c"), "w").write("outside")
         before = {}
         for dp, dn, fn in os.walk(root):
             for f in fn:
                 p = os.path.join(dp, f)
                 before[os.path.relpath(p, root)] = open(p, "rb").read()
-        r = subprocess.run([ctx.w2c2()] + opts + [os.path.join(root, "in.wasm"), os.path.join(root, outp)], capture_output=True, cwd=root, timeout=120)
+        # relative paths (the usual way to call it) except in the scenario "plain", which passes absolute ones
+        paths = [os.path.join(root, "in.wasm"), os.path.join(root, outp)] if name == "plain" else ["in.wasm", outp]
+        r = subprocess.run([ctx.w2c2()] + opts + paths, capture_output=True, cwd=root, timeout=120)
         after = {}
         for dp, dn, fn in os.walk(root):
             for f in fn:
@@ -55,7 +63,9 @@ def fs_effects(ctx, job):
         facts.append(("scenario %s (%s %s): exit status 0" % (name, " ".join(opts), outp), r.returncode == 0, r.stderr.decode(errors="replace")[-200:]))
         facts.append(("scenario %s: only the output file, its header, s/d########## .c files and 'datasegments' inside the output directory are created or overwritten" % name, okc, "changed=%s" % sorted(created)))
         facts.append(("scenario %s: %s" % (name, "exactly the files matching the implementation-file pattern are deleted" if "-c" in opts else "nothing is deleted"), okd, "deleted=%s" % sorted(deleted)))
-        facts.append(("scenario %s: the input module is unchanged" % name, after.get("in.wasm") == wasm_bytes, ""))
+        facts.append(("scenario %s: the input module is unchanged" % name, after.get("in.wasm") == wasm_bytes_s, ""))
+        if name == "gnuld":
+            facts.append(("scenario gnuld: the data-segment blob is written as 'datasegments' inside the output directory", os.path.join(os.path.dirname(outp), "datasegments") in after, "files=%s" % sorted(k for k in after if "datasegments" in k)))
     return facts
 
 
